@@ -12,6 +12,7 @@ import (
 	"crypto/sha1"
 	"encoding/json"
 	"fmt"
+	"io"
 	"os"
 	"os/exec"
 	"path/filepath"
@@ -189,8 +190,11 @@ func runChildren(spec Spec, bin, tier string, seed int64, n int, watchdog time.D
 					"VERIF_REPO="+repoDir, "VERIF_DIR="+verifDir, "VERIF_LOGDIR="+logDir, "VERIF_RESUME_AFTER="+resume,
 					"GOTRACEBACK=all",
 				)
-				if spec.CaseTimeoutS > 0 {
-					env = append(env, fmt.Sprintf("VERIF_CASE_TIMEOUT=%d", spec.CaseTimeoutS))
+				if ct := spec.CaseTimeoutS; ct > 0 || tier == "thorough" {
+					if tier == "thorough" && ct < 400 {
+						ct = 400 // thorough scenarios are larger (up to 30x30 shards under -race): fewer watchdog inconclusives on a busy machine
+					}
+					env = append(env, fmt.Sprintf("VERIF_CASE_TIMEOUT=%d", ct))
 				}
 				if spec.Race {
 					env = append(env, fmt.Sprintf("GORACE=halt_on_error=0 log_path=%s", filepath.Join(logDir, fmt.Sprintf("race.%d.%d", i, attempt))))
@@ -535,7 +539,25 @@ func aggregate(spec Spec, children []childOut, logDir string) aggT {
 			b := open[d.caseName]
 			a.evals++
 			logTxt := tailFile(d.log, 4000000)
+			if !rePanic.MatchString(logTxt) {
+				// the panic line precedes the goroutine dump, which can be longer than the tail read above
+				if head := headFile(d.log, 64<<20); rePanic.MatchString(head) || strings.Contains(head, "SIGSEGV: segmentation violation") {
+					logTxt = head
+				}
+			}
 			kind, detail := classifyDeath(logTxt, d.timedOut)
+			if kind == "toolchain-crash" {
+				a.inconclusive++
+				a.inconcWhy[detail]++
+				continue
+			}
+			if kind == "unknown" {
+				// no Go panic, no fatal error, no watchdog: the process was killed from outside or the runtime died
+				// without a word. A crash caused by the code under test always announces itself (panic / fatal error).
+				a.inconclusive++
+				a.inconcWhy[fmt.Sprintf("child process ended without a Go panic or fatal error (exit code %d)", d.exitCode)]++
+				continue
+			}
 			if d.timedOut && !strings.Contains(kind, "panic") && !strings.Contains(kind, "fatal error") {
 				if !spec.hangIsViolation(logTxt) {
 					a.inconclusive++
@@ -585,6 +607,16 @@ func aggregate(spec Spec, children []childOut, logDir string) aggT {
 	return a
 }
 
+func headFile(p string, n int64) string {
+	f, err := os.Open(p)
+	if err != nil {
+		return ""
+	}
+	defer f.Close()
+	b, _ := io.ReadAll(io.LimitReader(f, n))
+	return string(b)
+}
+
 func tailFile(p string, n int64) string {
 	f, err := os.Open(p)
 	if err != nil {
@@ -626,11 +658,22 @@ func classifyDeath(logTxt string, timedOut bool) (kind, detail string) {
 		}
 		return k, m
 	}
+	// A fatal signal raised inside the Go runtime itself (on the system stack, the running goroutine's top
+	// frames all in package runtime) is a crash of the toolchain, not of the code under test: seen once in
+	// 135k virtual-time cases as SIGSEGV in runtime.(*timer).maybeRunChan (go1.26.8, synctest bubble, -race).
+	if i := strings.Index(logTxt, "SIGSEGV: segmentation violation\nPC="); i >= 0 {
+		if m := reRunningGoroutine.FindStringSubmatch(logTxt[i:]); m != nil && strings.HasPrefix(m[1], "runtime.") {
+			return "toolchain-crash", "fatal signal inside the Go runtime (" + m[1] + " / " + m[2] + "), not in the code under test"
+		}
+	}
 	if timedOut {
 		return "watchdog", "watchdog expired (goroutine dump in log)"
 	}
 	return "unknown", "no panic line found"
 }
+
+// first two frames of the goroutine that was running when a fatal signal arrived
+var reRunningGoroutine = regexp.MustCompile(`(?m)^goroutine \d+ [^\n]*\[running[^\n]*\]:\n(\S+?)\([^\n]*\n[^\n]*\n(\S+?)\(`)
 
 func splitRaceBlocks(s string) []string {
 	var out []string
